@@ -18,6 +18,7 @@
 //@@ include compact.rs
 //@@ include common.rs
 //@@ props ^capture_diff : C02 C09 C11 C03
+//@@ props ^myers::|^lcs::|^patience::|^diff$|^diff_deadline$|^diff_slices$|^diff_slices_deadline$ : C02 C11
 //@@ props ^Compact::|^DiffHook for Compact:: : C02 C03 C09 C10 C11 C08
 //@@ props ^cleanup_diff_ops$|^shift_diff_ops_up$|^shift_diff_ops_down$ : C02 C03 C09 C10 C11 C05
 //@@ props ^Replace::|^DiffHook for Replace:: : C02 C03 C09 C10 C11
